@@ -150,7 +150,9 @@ CORPUS = {
             "",
             "\n",
         ],
-        "same": ["requests\n{PKG}>=0.0.1\n", "{PKG}\n", "requests\n{PKG}==0.0.1\t# pinned on purpose\nflask  # web\n"],
+        "same": ["requests\n{PKG}>=0.0.1\n", "{PKG}\n", "requests\n{PKG}==0.0.1\t# pinned on purpose\nflask  # web\n",
+                 # as pip-compile --generate-hashes writes it: options on continuation lines
+                 "requests==2.31.0 \\\n    --hash=sha256:aaaa \\\n    --hash=sha256:bbbb\n{PKG}==0.0.1 \\\n    --hash=sha256:cccc\n    # via -r requirements.in\n"],
         "spelled": ["requests\n{ALT}\n"],
         "unwritable": [],
     },
